@@ -123,14 +123,12 @@ def _header_nodes(a: ast.AST, kind: str) -> List[ast.AST]:
     return [a]
 
 
-_RD: Dict[int, ReachingDefs] = {}
-
-
 def reaching(func: Func) -> ReachingDefs:
-    r = _RD.get(id(func.node))
+    """Reaching definitions of a function, cached on its AST node."""
+    r = getattr(func.node, "_hvsa_rd", None)
     if r is None:
         r = ReachingDefs(func)
-        _RD[id(func.node)] = r
+        func.node._hvsa_rd = r
     return r
 
 
